@@ -185,7 +185,13 @@ impl State {
         match action {
             // RefIncs are not dependent w/ RefDec, only inspections
             Action::RefInc => self.last_ref_inspect.as_ref(),
-            Action::RefDec => self.last_ref_dec.as_ref(),
+            // RefDecs are dependent w/ other RefDecs and w/ inspections (an
+            // inspection observes the count); use whichever came last.
+            Action::RefDec => match (&self.last_ref_dec, &self.last_ref_inspect) {
+                (Some(dec), Some(inspect)) if inspect.path_id() > dec.path_id() => Some(inspect),
+                (Some(dec), _) => Some(dec),
+                (None, inspect) => inspect.as_ref(),
+            },
             Action::Inspect => match self.last_ref_modification {
                 Some(RefModify::RefInc) => self.last_ref_inc.as_ref(),
                 Some(RefModify::RefDec) => self.last_ref_dec.as_ref(),
